@@ -196,6 +196,19 @@ CHECKS['C17'] = ('4/C17',
     'arguments outside the pool.',
     'Lean 4 proof (digit-list induction, well-founded recursion, decide +kernel over 1..3999) + generated constants + correspondence')
 
+CHECKS['C03'] = ('4/C03',
+    'Lean 4 theorems over an interleaving model at lexer-operation granularity (an activation = one FormulaParser.parse; the shared '
+    'store maps lexer objects to (input, position); the per-activation machine step is arbitrary): with one lexer object per '
+    'activation (the code after the repair: parse clones its lexer) EVERY schedule of any number of activations leaves each '
+    'activation with exactly its solo token stream and outcome; nesting to any depth is a schedule; a per-parser lexer still isolates '
+    'different parsers but breaks same-parser re-entrancy and a process-global lexer breaks both (kernel-checked counterexamples '
+    'mirroring EVAL("1+1")+10); bindings of parser P are never read by evaluations on Q. Tied to the code by interposing evaluations at '
+    'every callback position (other/same/fresh parser, depth 2), by a harness-controlled scheduler that orders every lexer operation of '
+    '2-3 threads (all interleavings of short formulas in the thorough tier) and by a free-running stress test.',
+    'Trusted: Lean kernel; correspondence harness; interleavings finer than lexer operations (bytecode level under the GIL) and CPython '
+    'object internals are NOT modelled; a lexer state after t_error raised is not modelled.',
+    'Lean 4 proof (ownership/frame invariant by induction on schedules) + scheduler-controlled correspondence of token streams')
+
 NOT_APPLICABLE = {}
 
 
